@@ -9,7 +9,7 @@ import zlib
 import numpy as np
 
 from sim import filgen
-from sim.core import SimLivelock, Violation
+from sim.core import open_reader, SimLivelock, Violation
 from sim.disk import SimDisk
 
 from .c02 import after_list_removal, gen_big_files, gen_files, warm  # noqa: F401
@@ -272,7 +272,7 @@ def execute(sc, ctx) -> None:
     after_fault = False
 
     with SimDisk(ctx, sc["faults"]) as sim:
-        reader = FilReader(fs.paths)
+        reader = open_reader("C01", fs.paths)
         for i, op in enumerate(sc["ops"]):
             if op["op"] == "read_block":
                 sim.begin_op(i, budget=64 * (nfiles + 2))
